@@ -244,6 +244,17 @@ func lalrReport(o *hc.Out) {
 		}
 	}
 	o.Stats["lalr.productions_total"] = total
+	if total > 0 {
+		var missing []string
+		for p := 1; p <= total; p++ {
+			if !lalrProductions[p] {
+				missing = append(missing, strconv.Itoa(p))
+			}
+		}
+		if len(missing) > 0 && len(missing) <= 40 {
+			o.Stats["lalr.productions_not_reduced:"+strings.Join(missing, ",")] = len(missing)
+		}
+	}
 }
 
 // ---------- token soup: token-level damage with the whole vocabulary of the grammar ----------
